@@ -92,10 +92,6 @@ theorem neutral_unitLoop (l : List At) : ∀ cur c last pending,
 
 theorem neutral_unit (l : List At) : Neutral (unit l) := neutral_unitLoop l ..
 
-end Anything.Eval
-
-namespace Anything.Eval
-
 /-- `m` and `m'` are the same program run under `cfg` resp. `cfg'`. -/
 inductive Built (cfg cfg' : Cfg) : {α : Type} → EvalM α → EvalM α → Prop
   | neutral {α : Type} (m : EvalM α) : Neutral m → Built cfg cfg' m m
@@ -284,8 +280,11 @@ theorem Built.log {cfg cfg' : Cfg} {α : Type} {m m' : EvalM α} (h : Built cfg 
 
 /-- The result is a failed lookup (the phrase is missing from the database, or the
 database itself failed). -/
-def LookupFail {α : Type} (r : Except EvalErr α) : Prop :=
-  ∃ s e, r = .error (.err .lookupError s e) ∨ r = .error (.err .missing s e)
+def IsLookupFail (e : EvalErr) : Prop :=
+  ∃ s t, e = .err .lookupError s t ∨ e = .err .missing s t
+
+/-- The outcome is a failed lookup. -/
+def LookupFail {α : Type} (r : Except EvalErr α) : Prop := ∃ e, r = .error e ∧ IsLookupFail e
 
 /-- With `describe` on, the outcome depends on the database only through the logged
 phrases — unless the outcome is itself a failed lookup. -/
@@ -300,10 +299,10 @@ theorem Built.complete {cfg cfg' : Cfg} {α : Type} {m m' : EvalM α} (h : Built
     cases hdb : cfg.db a.t.text with
     | error =>
       simp only [lookup_apply, hdb, Prod.mk.injEq] at hm
-      exact .inr ⟨_, _, .inl hm.1.symm⟩
+      exact .inr ⟨_, hm.1.symm, _, _, .inl rfl⟩
     | nothing =>
       simp only [lookup_apply, hdb, Prod.mk.injEq] at hm
-      exact .inr ⟨_, _, .inr hm.1.symm⟩
+      exact .inr ⟨_, hm.1.symm, _, _, .inr rfl⟩
     | found c =>
       left
       simp only [lookup_apply, hdb, hd, if_true, Prod.mk.injEq] at hm
@@ -327,9 +326,9 @@ theorem Built.complete {cfg cfg' : Cfg} {α : Type} {m m' : EvalM α} (h : Built
       rcases ihm d _ _ (hr1 d) hag with h1 | h1
       · left; simp only [bind_apply, h1, hr]
       · right
-        obtain ⟨s, e', h1 | h1⟩ := h1
-        · cases h1; exact ⟨s, e', .inl hr.symm⟩
-        · cases h1; exact ⟨s, e', .inr hr.symm⟩
+        obtain ⟨e', he, hfail⟩ := h1
+        cases he
+        exact ⟨_, hr.symm, hfail⟩
     | ok a =>
       simp only at hb
       obtain ⟨r2, t2, hr2, -⟩ := (hf a).log
@@ -342,11 +341,188 @@ theorem Built.complete {cfg cfg' : Cfg} {α : Type} {m m' : EvalM α} (h : Built
         fun x hx => hag x (List.mem_append_left _ hx)
       have hag2 : ∀ x ∈ t2, cfg'.db x.phrase = cfg.db x.phrase :=
         fun x hx => hag x (List.mem_append_right _ hx)
-      rcases ihm d _ _ (hr1 d) hag1 with h1 | ⟨s, e, h1 | h1⟩
+      rcases ihm d _ _ (hr1 d) hag1 with h1 | ⟨e, he, -⟩
       · rcases ihf a (d ++ t1) r2 t2 (hr2 _) hag2 with h2 | h2
         · left; simp only [bind_apply, h1, h2, hr, List.append_assoc]
         · right; rw [← hr]; exact h2
-      · cases h1
-      · cases h1
+      · cases he
+
+/-- Successful version of `Built.complete`. -/
+theorem Built.complete_ok {cfg cfg' : Cfg} {α : Type} {m m' : EvalM α} (h : Built cfg cfg' m m')
+    (hd : cfg.describe = true) (hd' : cfg'.describe = true) (d : List Desc) (v : α) (t : List Desc)
+    (hm : m d = (.ok v, d ++ t)) (hag : ∀ x ∈ t, cfg'.db x.phrase = cfg.db x.phrase) :
+    m' d = (.ok v, d ++ t) := by
+  rcases h.complete hd hd' d _ t hm hag with h1 | ⟨e, he, -⟩
+  · exact h1
+  · cases he
+
+/-- With `describe` on, every logged phrase was really looked up: take the fact away
+from the database (leaving every other phrase alone) and the run fails at a lookup. -/
+theorem Built.necessary {cfg cfg' : Cfg} {α : Type} {m m' : EvalM α} (h : Built cfg cfg' m m')
+    (hd : cfg.describe = true) (hd' : cfg'.describe = true) (p : List Char)
+    (hag : ∀ s, s ≠ p → cfg'.db s = cfg.db s) (hnf : ∀ c, cfg'.db p ≠ .found c) :
+    ∀ d v t, m d = (.ok v, d ++ t) → p ∈ t.map (·.phrase) →
+      ∃ e d2, m' d = (.error e, d2) ∧ IsLookupFail e := by
+  induction h with
+  | neutral m hn =>
+    intro d v t hm hp
+    obtain ⟨r, hr⟩ := hn
+    rw [hr] at hm
+    simp only [Prod.mk.injEq] at hm
+    have : t = [] := by
+      have h2 : d ++ [] = d ++ t := by simpa using hm.2
+      exact (List.append_cancel_left h2).symm
+    subst this
+    simp at hp
+  | lookup a =>
+    intro d v t hm hp
+    cases hdb : cfg.db a.t.text with
+    | error => simp only [lookup_apply, hdb, Prod.mk.injEq] at hm; exact absurd hm.1 (by simp)
+    | nothing => simp only [lookup_apply, hdb, Prod.mk.injEq] at hm; exact absurd hm.1 (by simp)
+    | found c =>
+      simp only [lookup_apply, hdb, hd, if_true, Prod.mk.injEq] at hm
+      have ht' := List.append_cancel_left hm.2
+      subst ht'
+      simp only [List.map_cons, List.map_nil, List.mem_singleton] at hp
+      subst hp
+      cases hdb' : cfg'.db a.t.text with
+      | error =>
+        exact ⟨.err .lookupError a.off a.stop, d, by simp only [lookup_apply, hdb'], _, _, .inl rfl⟩
+      | nothing =>
+        exact ⟨.err .missing a.off a.stop, d, by simp only [lookup_apply, hdb'], _, _, .inr rfl⟩
+      | found c' => exact absurd hdb' (hnf c')
+  | bind hm hf ihm ihf =>
+    rename_i m m' f f'
+    intro d v t hb hp
+    obtain ⟨r1, t1, hr1, -⟩ := hm.log
+    simp only [bind_apply, hr1] at hb
+    cases r1 with
+    | error e => simp only [Prod.mk.injEq] at hb; exact absurd hb.1 (by simp)
+    | ok a =>
+      simp only at hb
+      obtain ⟨r2, t2, hr2, -⟩ := (hf a).log
+      rw [hr2] at hb
+      simp only [Prod.mk.injEq, List.append_assoc] at hb
+      obtain ⟨hr, ht⟩ := hb
+      have ht' := List.append_cancel_left ht
+      subst ht'
+      subst hr
+      by_cases hp1 : p ∈ t1.map (·.phrase)
+      · obtain ⟨e, d2, he, hfail⟩ := ihm d a t1 (hr1 d) hp1
+        exact ⟨e, d2, by simp only [bind_apply, he], hfail⟩
+      · have hag1 : ∀ x ∈ t1, cfg'.db x.phrase = cfg.db x.phrase := by
+          intro x hx
+          apply hag
+          intro hxp
+          exact hp1 (List.mem_map.2 ⟨x, hx, hxp⟩)
+        have h1 := hm.complete_ok hd hd' d a t1 (hr1 d) hag1
+        have hp2 : p ∈ t2.map (·.phrase) := by
+          simp only [List.map_append, List.mem_append] at hp
+          exact hp.resolve_left hp1
+        obtain ⟨e, d2, he, hfail⟩ := ihf a (d ++ t1) _ t2 (hr2 _) hp2
+        exact ⟨e, d2, by simp only [bind_apply, h1, he], hfail⟩
+
+/-! ## `queryLoop` -/
+
+/-- The fuel `queryLoop` gives to a root child. -/
+def qFuel (a : At) : Nat := 2 * size a.t + 2
+
+/-- The root children `queryLoop` evaluates: everything but WHITESPACE. -/
+def live (as : List At) : List At := as.filter (fun a => !(a.t.kind == .WHITESPACE))
+
+theorem live_append (as bs : List At) : live (as ++ bs) = live as ++ live bs := by
+  simp only [live, List.filter_append]
+
+/-- `queryLoop` is the list of the isolated results, and the concatenation, in order,
+of the isolated logs. -/
+theorem queryLoop_eq (cfg : Cfg) (as : List At) : ∀ d, queryLoop cfg as d =
+    ((live as).map (fun a => (eval cfg (qFuel a) a []).1),
+     d ++ ((live as).map (fun a => (eval cfg (qFuel a) a []).2)).flatten) := by
+  induction as with
+  | nil => intro d; simp [queryLoop, live]
+  | cons a rest ih =>
+    intro d
+    unfold queryLoop
+    by_cases hw : (a.t.kind == Syntax.WHITESPACE) = true
+    · simp only [hw, if_true, ih, live, List.filter_cons, Bool.not_true, Bool.false_eq_true,
+        if_false]
+    · have hw' : (a.t.kind == Syntax.WHITESPACE) = false := by simpa using hw
+      obtain ⟨r, t, hr, -⟩ := (built_eval cfg cfg rfl (qFuel a) a).log
+      have h1 : eval cfg (2 * size a.t + 2) a d = (r, d ++ t) := hr d
+      have h2 : eval cfg (qFuel a) a [] = (r, t) := by simpa using hr []
+      simp only [hw', live, List.filter_cons, Bool.not_false, if_true, Bool.false_eq_true,
+        if_false, List.map_cons, List.flatten_cons, h1, h2, ih, List.append_assoc]
+
+/-! ## Order of evaluation inside a binary operation -/
+
+/-- The arithmetic step of `opFold` for the operator kind `k`. -/
+def arith (cfg : Cfg) (k : Syntax) (s e : Nat) (b r : Numeric) : EvalM Numeric :=
+  if k == .OP_ADD then add s e b r false
+  else if k == .OP_SUB then add s e b r true
+  else if k == .OP_DIV then mulDiv cfg s e b r true
+  else if k == .OP_POWER then pow s e b r
+  else mulDiv cfg s e b r false
+
+theorem neutral_arith (cfg : Cfg) (k : Syntax) (s e : Nat) (b r : Numeric) :
+    Neutral (arith cfg k s e b r) := by
+  unfold arith
+  repeat' split
+  all_goals neutral_tac
+
+/-- The binary operator kinds. -/
+def IsArith (k : Syntax) : Prop :=
+  k = .OP_ADD ∨ k = .OP_SUB ∨ k = .OP_MUL ∨ k = .OP_DIV ∨ k = .OP_IMPLICIT_MUL ∨ k = .OP_POWER
+
+theorem eval_operation (cfg : Cfg) (fuel : Nat) (a base : At) (rest : List At)
+    (hk : a.t.kind = .OPERATION)
+    (hkids : a.kids.filter (fun k => k.t.hasChildren) = base :: rest) :
+    eval cfg (fuel + 1) a = opFold cfg fuel a (.node base) rest >>= force cfg fuel := by
+  rw [eval]
+  simp only [hk, hkids]
+
+theorem opFold_arith (cfg : Cfg) (fuel : Nat) (node op rhs : At) (base : Delayed) (rest : List At)
+    (hop : IsArith op.t.kind) :
+    opFold cfg (fuel + 1) node base (op :: rhs :: rest) =
+      (do let r ← eval cfg fuel rhs
+          let b ← force cfg fuel base
+          let v ← arith cfg op.t.kind node.off node.stop b r
+          opFold cfg fuel node (.num v) rest) := by
+  rw [opFold]
+  rcases hop with h | h | h | h | h | h <;> simp only [h] <;> rfl
+
+theorem force_node (cfg : Cfg) (fuel : Nat) (a : At) :
+    force cfg (fuel + 1) (.node a) = eval cfg fuel a := by rw [force]
+
+theorem force_num (cfg : Cfg) (fuel : Nat) (n : Numeric) : force cfg fuel (.num n) = pure n := by
+  rw [force]
+
+theorem opFold_nil (cfg : Cfg) (fuel : Nat) (node : At) (b : Delayed) :
+    opFold cfg fuel node b [] = pure b := by rw [opFold]
+
+/-- A binary operation evaluates its RIGHT operand first, then its left operand, then
+combines them. -/
+theorem eval_binary (cfg : Cfg) (fuel : Nat) (a l op r : At)
+    (hk : a.t.kind = .OPERATION)
+    (hkids : a.kids.filter (fun k => k.t.hasChildren) = [l, op, r])
+    (hop : IsArith op.t.kind) :
+    eval cfg (fuel + 3) a =
+      (do let rv ← eval cfg (fuel + 1) r
+          let lv ← eval cfg fuel l
+          arith cfg op.t.kind a.off a.stop lv rv) := by
+  rw [eval_operation cfg _ a l [op, r] hk hkids, opFold_arith cfg _ a op r _ [] hop]
+  funext d
+  simp only [bind_apply, force_node, opFold_nil]
+  generalize eval cfg (fuel + 1) r d = p1
+  rcases p1 with ⟨e1 | rv, d1⟩
+  · rfl
+  · simp only
+    generalize eval cfg fuel l d1 = p2
+    rcases p2 with ⟨e2 | lv, d2⟩
+    · rfl
+    · simp only
+      generalize arith cfg op.t.kind a.off a.stop lv rv d2 = p3
+      rcases p3 with ⟨e3 | v, d3⟩
+      · rfl
+      · rfl
 
 end Anything.Eval
